@@ -46,7 +46,7 @@ PROPERTY_RULES: Dict[str, List[str]] = {
     "C12": ["R22", "R23/feature"],
     "C13": ["R11", "R22/type-readers", "R3/P2", "R3/P6", "R14/waiter", "R14/groups"],
     "C14": ["R14", "R23/feature", "R11/conn", "R11/raw", "R11/local"],
-    "C15": ["R23", "R3/P3b"],
+    "C15": ["R23", "R3/P3b", "R14/shared"],
     "C16": ["R1/O2", "R2/INFLIGHT", "R2/anc", "R2/own", "R1/O4", "R20/async", "R20/connect", "R20/writers", "R10/gate", "R10/set_data", "R10/get_data", "R17/take", "R17/memory", "R17/writeback", "R3/P1"],
     "C17": ["R3/INIT", "R11/schedule", "R11/sched-value", "R8", "R2/rt", "R4/wait", "R10/set_event", "R10/run", "R10/rt_check", "R10/R18", "R1/O5c", "R1/O5d", "R1/O5e", "R4/dedup", "R4/wake", "R2/anc", "R2/INFLIGHT", "R2/own"],
     "C18": ["R24"],
@@ -84,7 +84,7 @@ CLAIMS: Dict[str, Tuple[str, str]] = {
             "reply classes not listed in the statement"),
     "C14": ("cleanup is reached from every exit of run() (try/finally), covers every simulator, is exception-isolated and idempotent, closes channel / reader task / server socket / loop on every path; every created task has an owner that awaits it concurrently and cancels + drains it on failure and cancellation exits; the reader task cannot await itself; connection loss becomes a SimulationError naming the simulator; no wrapper on the way swallows a simulator's exception (handlers re-raise, no normal return from a handler); a created coroutine of the package is awaited or handed on (never returned un-awaited from a coroutine), adapters do not re-send or swallow; RemoteProxy.stop closes the channel before it waits for the reader task, no break ends the stop loop of shutdown early",
             "promptness (timing), behaviour for each crash point, child-process reaping, faults inside mosaik_api_v3"),
-    "C15": ("request shapes of every Proxy.send site (step: exactly 3 positional arguments, no keyword arguments), the feature/adapter table (max_advance, setup_done, missing type), thresholds and nesting order of the adapters for representative versions, the two rejections dominate the wrapping, configured and reported versions are parsed alike, in-process time_resolution handling, adapters are transparent for errors (no forward inside a swallowing try) and the meta they adapt is one stable object",
+    "C15": ("request shapes of every Proxy.send site (step: exactly 3 positional arguments, no keyword arguments), the feature/adapter table (max_advance, setup_done, missing type), thresholds and nesting order of the adapters for representative versions, the two rejections dominate the wrapping, configured and reported versions are parsed alike, in-process time_resolution handling, adapters are transparent for errors (no forward inside a swallowing try) and the meta they adapt is one stable object; no mutable table is created in the body of a proxy / adapter class and filled through self or cls (a handler table shared by inheritance makes one adapter apply another one's changes)",
             "'sees the same scheduling and data as a current-version simulator' (behaviour)"),
     "C16": ("the producer waits unconditionally for its async consumers, set_data/get_data are gated by _assert_async_requests (ScenarioError for both missing-connection cases) before any access, set_data inputs are consumed exactly once (take and clear), connect_async_requests fills successors, successors_to_wait_for and input_delays; the producer's bound sees the step in flight until its outputs are fetched; wait_for_dependencies dominates the pop of every step (no fast path around the wait for the async-request partners)",
             "the ordering clause over executions"),
